@@ -15,7 +15,10 @@ run_one() {
   wt=/tmp/regress-wt-$slot
   git -C /repo worktree remove --force $wt >/dev/null 2>&1
   git -C /repo worktree add -q --detach $wt HEAD || { echo "$d worktree-failed"; return; }
-  if git -C $wt apply $V/seeded/$d/patch.diff 2>/dev/null || git -C $wt apply --3way $V/seeded/$d/patch.diff >/dev/null 2>&1 || { [ -f $V/seeded/$d/patch-rebased.diff ] && git -C $wt apply $V/seeded/$d/patch-rebased.diff 2>/dev/null; } \
+  # the stored patch; the patch rebased by hand on later fixes; a three-way merge; a fuzzy patch (each attempt on a clean tree)
+  if git -C $wt apply $V/seeded/$d/patch.diff 2>/dev/null \
+     || { [ -f $V/seeded/$d/patch-rebased.diff ] && git -C $wt apply $V/seeded/$d/patch-rebased.diff 2>/dev/null; } \
+     || { git -C $wt apply --3way $V/seeded/$d/patch.diff >/dev/null 2>&1 || { git -C $wt reset -q --hard; false; }; } \
      || { git -C $wt checkout -q -- . && (cd $wt && patch -p1 -s -F3 --no-backup-if-mismatch -r - < $V/seeded/$d/patch.diff >/dev/null 2>&1) && (cd $wt && GOFLAGS=-mod=mod go build ./... 2>/dev/null); }; then
     checks=$id
     case $d in C05-w2-2) checks="C05 C12";; C11-2) checks="C04";; C08-w5-2) checks="C08 C06";; C12-w5-1) checks="C12 C17";; C07-w6-2) checks="C07 C18";; C11-w6-2) checks="C11 C09";; esac
